@@ -238,17 +238,21 @@ def table_sample_rate(facts, orc):
              256000, 300000, 352800, 384000, 655350, 655351, 655360, 700001, 1000000, 4294967295]
     for rate in rates:
         kind, var = variant_of(rate)
+        if kind == "?":
+            t.row(False, fb.id, "generic(%d)" % rate, "the summary of from_freq cannot be evaluated for %d Hz (fail closed)"
+                  % rate, {"rate": rate, "form": "not evaluable"}, fb.loc())
+            continue
         representable = any(rate % w["unit"] == 0 and rate // w["unit"] <= limit[nm] for nm, w in want.items())
         if kind == "None":
             t.row(not representable, fb.id, "generic(%d)" % rate, "sample rate %d Hz is refused although the frame header can "
                   "carry it" % rate, {"rate": rate, "form": None}, fb.loc())
             continue
         nm = var[2] if isinstance(var, tuple) and var[0] == "agg" else None
-        ok = nm in want and len(var[3]) == 1 and isinstance(var[3][0], int) \
+        ok = nm in want and isinstance(var, tuple) and len(var[3]) == 1 and isinstance(var[3][0], int) \
             and var[3][0] * want[nm]["unit"] == rate and 0 <= var[3][0] <= limit[nm]
         seen_forms.add(nm)
         t.row(ok, fb.id, "generic(%d)" % rate, "sample rate %d Hz is coded as %s: the value does not represent the rate in the "
-              "unit RFC 9639 gives that form" % (rate, agg_name(var) + str(var[3] if isinstance(var, tuple) else "")),
+              "unit RFC 9639 gives that form" % (rate, str(agg_name(var)) + str(var[3] if isinstance(var, tuple) else " (%r)" % (var,))),
               {"rate": rate, "form": nm}, fb.loc())
     for var, w in sorted(want.items()):
         t.row(var in seen_forms, fb.id, "unit(%s)" % var, "the %s form (unit %d Hz) is never chosen on the probe rates"
